@@ -224,6 +224,39 @@ def interleaving_sig(events, incs):
     return "|".join(sig)[:200]
 
 
+def retirement_fails(events, incs):
+    """tasks whose occurrences are all served and whose children are gone must be gone too; cancelled ones as well"""
+    fails = []
+    armed = [e for e in events if e[0] == "ARMED"]
+    final = armed[-1][2] if armed else {}
+    alive_pids = set()
+    vt = {e[1]: sched.vtodo_uid(e[2]) for e in events if e[0] == "VTODO"}
+    running = {}
+    for e in events:
+        if e[0] == "SPAWN" and not sched.has_norun(e[4]):
+            running.setdefault(vt.get(e[1]), set()).add(e[1])
+        elif e[0] == "EXIT":
+            for s in running.values():
+                s.discard(e[1])
+    for uid, lst in incs.items():
+        inc = lst[-1]
+        if inc.end is not None:
+            if uid in final:
+                fails.append(("cancelled-task-still-armed", "%s was cancelled at %.3f but is still in the task table" % (uid, inc.end)))
+            continue
+        remaining = [o for o in inc.occ[inc.cursor:]]
+        if getattr(inc, "more", False):
+            continue       # occurrences beyond the end of the history: it has to stay
+        if not remaining and not running.get(uid) and uid in final:
+            if not inc.occ:
+                fails.append(("task-without-future-occurrence-stays", "%s has no occurrence after its load time but stays in the task table" % uid))
+            else:
+                fails.append(("task-not-retired", "%s: all %d occurrences served and children reaped, still in the task table" % (uid, len(inc.occ))))
+        if remaining and uid not in final and not inc.end:
+            fails.append(("task-vanished", "%s has %d occurrences to come but is not in the task table" % (uid, len(remaining))))
+    return fails
+
+
 def run_history(root, srv, part, rng, tier):
     spool = tempfile.mkdtemp(prefix="c04-spool-")
     try:
@@ -240,34 +273,7 @@ def run_history(root, srv, part, rng, tier):
             return
         fails = []
         stats = sched.check_schedule(events, incs, t_end, lambda k, d: fails.append((k, d)))
-        # retirement: tasks whose occurrences are all served and whose children are gone must be gone too
-        armed = [e for e in events if e[0] == "ARMED"]
-        final = armed[-1][2] if armed else {}
-        alive_pids = set()
-        vt = {e[1]: sched.vtodo_uid(e[2]) for e in events if e[0] == "VTODO"}
-        running = {}
-        for e in events:
-            if e[0] == "SPAWN" and not sched.has_norun(e[4]):
-                running.setdefault(vt.get(e[1]), set()).add(e[1])
-            elif e[0] == "EXIT":
-                for s in running.values():
-                    s.discard(e[1])
-        for uid, lst in incs.items():
-            inc = lst[-1]
-            if inc.end is not None:
-                if uid in final:
-                    fails.append(("cancelled-task-still-armed", "%s was cancelled at %.3f but is still in the task table" % (uid, inc.end)))
-                continue
-            remaining = [o for o in inc.occ[inc.cursor:]]
-            if getattr(inc, "more", False):
-                continue       # occurrences beyond the end of the history: it has to stay
-            if not remaining and not running.get(uid) and uid in final:
-                if not inc.occ:
-                    fails.append(("task-without-future-occurrence-stays", "%s has no occurrence after its load time but stays in the task table" % uid))
-                else:
-                    fails.append(("task-not-retired", "%s: all %d occurrences served and children reaped, still in the task table" % (uid, len(inc.occ))))
-            if remaining and uid not in final and not inc.end:
-                fails.append(("task-vanished", "%s has %d occurrences to come but is not in the task table" % (uid, len(remaining))))
+        fails += retirement_fails(events, incs)
         part.count("spawns_judged", stats["spawns_judged"])
         part.count("collapsed_runs_seen", stats["collapsed_runs"])
         part.count("late_runs_seen", stats["late_runs"])
@@ -275,7 +281,7 @@ def run_history(root, srv, part, rng, tier):
         if stats["spawns_judged"]:
             part.nontrivial.add(sig)
         for k, d in fails:
-            part.violation(k, {"input": sc.text(), "detail": d, "meta": meta,
+            part.violation(k, {"input": sc.text(), "detail": d, "meta": meta, "incs": sched.incs_to_json(incs), "t_end": t_end,
                                "summary": "%s (history: %d tasks over %ds, %d stalls)" % (d, meta["ntasks"], meta["span"], meta["stalls"])})
         if not fails and len(part.samples) < 2 and stats["spawns_judged"] > 3:
             part.sample({"tasks": meta["ntasks"], "span_s": meta["span"], "spawns": stats["spawns_judged"],
@@ -322,7 +328,23 @@ def main(tier):
 
 
 def replay(path):
+    """re-run the recorded history on the current tree and judge it again"""
     w = json.load(open(path))
-    print(w.get("input", "")[:3000])
-    print(w.get("detail"))
-    return 1
+    root = build_or_die()
+    print("recorded:", w.get("key"), "|", w.get("detail") or w.get("summary"))
+    events, out, err, rc = sched.run_script(root, w["input"])
+    if events is None or rc != 0 or not any(e[0] == "END" for e in events):
+        print("now: the daemon harness dies (rc %s): %s" % (rc, err[-400:]))
+        return 1
+    if "incs" not in w:
+        print("now: runs to the end (the witness carries no schedule model to judge against)")
+        return 0 if w.get("key", "").startswith("daemon-crash") else 1
+    incs = sched.incs_from_json(w["incs"])
+    fails = []
+    sched.check_schedule(events, incs, w["t_end"], lambda k, d: fails.append((k, d)))
+    fails += retirement_fails(events, incs)
+    for k, d in fails[:10]:
+        print("now:", k, d)
+    if not fails:
+        print("now: the schedule rules hold on this history")
+    return 1 if fails else 0
